@@ -42,6 +42,23 @@ D2 = (HEADER_RESP_2AN + b"\x00" + struct.pack(">HHIH", 99, 1, 10, 4) + b"\x01a\x
       + b"\xc0\x17" + struct.pack(">HHIH", 1, 1, 10, 4) + b"\x01\x02\x03\x04")
 
 
+def merged_label_cases():
+    """Names whose dotted presentation re-splits into a label > 63 bytes (a label ending in a
+    backslash merges with the next one): rejected by read_name since fix 35da75b."""
+    out = []
+    for la, lb in ((40, 40), (1, 63), (31, 31), (31, 32), (62, 0), (63, 1)):
+        first = b"a" * la + b"\\"
+        second = b"b" * lb if lb else b""
+        labels = [first] + ([second] if second else []) + [b"_x", b"_tcp", b"local"]
+        p = dnsgen.Packet(compress=False)
+        p.rr(1, [b"_x", b"_tcp", b"local"], 12, 1, 120, dnsgen.rd_ptr(labels))
+        out.append(p.finish(flags=0x8400))
+        p = dnsgen.Packet(compress=False)
+        p.question(labels, 12)
+        out.append(p.finish(flags=0))
+    return out
+
+
 def case(b, tag):
     return Case("dec " + (b.hex() if b else "-"), tag)
 
@@ -82,6 +99,8 @@ def generate(rng, tier):
              case(b"\x00" * 12, "fixed")]
     for b in rdata_prefix_cases():
         cases.append(case(b, "rdata-prefix"))
+    for b in merged_label_cases():
+        cases.append(case(b, "merged-label"))
     for _ in range(n // 6):
         cases.append(case(dnsgen.rand_valid_packet(rng), "valid"))
     for _ in range(n // 3):
